@@ -72,11 +72,14 @@ Definition finish (upd : bool) (cols : list col) (db : list pset) (r : result (l
 
 (* input  L [I op; L cols; L base rows; L psets; flags (implementation side only)]   op 0 Core INSERT, 1 Core UPDATE, 2 ORM INSERT (psets =
           attribute dictionaries), 3 ORM UPDATE (psets = new attribute values incl. key 0 = the row)
+          4 insert(t).values([rows]), 5 Core UPDATE ... ordered_values (5th element = the ordered keys),
+          6 INSERT whose integer primary key has a pre-executed SQL default (5th element = [fetched value])
    output L [I 0; rows in insertion order (values in column order); call counts per callable]
-        | L [I 1; group; key]  ("A value is required for bind parameter") *)
+        | L [I 1; group; key]  ("A value is required for bind parameter")
+        | L [I 2; key]    (CompileError: multi-values row lacks a column that has no Python/SQL default) *)
 Definition run_case (t : tree) : tree :=
   match t with
-  | L [I op; tc; tb; tp; _] =>
+  | L [I op; tc; tb; tp; tf] =>
       match as_list_of as_col tc, as_list_of as_pset tb, as_list_of as_pset tp with
       | Some cols, Some base, Some ps =>
           let olds := map (fun p => find_row base (match get O p with Some v => v | None => None end)) ps in
@@ -91,6 +94,34 @@ Definition run_case (t : tree) : tree :=
                  (filter (fun po => has_change (fst po))
                     (map (fun po => (orm_update_params cols (match snd po with Some o => o | None => [] end) (fst po),
                                      snd po)) (combine ps olds))) [])
+          else if Z.eqb op 4 then
+            (* insert(t).values([rows]) ; context callables are not part of this family *)
+            if existsb (fun c => match cdef c with CtxCallable _ => true | _ => false end) cols then bad_input
+            else match multi_exec h_cval h_ctxval h_sqlval h_srvval cols ps [] with
+                 | inl (rows, cs) => finish false cols base (Ok (rows, cs))
+                 | inr (EMultiDefault i k) => L [I 2; of_nat k]
+                 end
+          else if Z.eqb op 5 then
+            match as_list_of as_nat tf with
+            | Some order =>
+                let cols' := ordered_cols order cols in
+                match core_exec' cols' ps olds [] with
+                | Ok (rows, cs) => finish true cols base (Ok (map (table_order cols) rows, cs))
+                | Err e => finish true cols base (Err e)
+                end
+            | None => bad_input
+            end
+          else if Z.eqb op 6 then
+            match tf, ps with
+            | L [fv], [p] =>
+                match as_val fv with
+                | Some fetched =>
+                    finish false cols base
+                      (core_exec' cols [(O, preexec_param None fetched) :: p] [None] [])
+                | None => bad_input
+                end
+            | _, _ => bad_input
+            end
           else bad_input
       | _, _, _ => bad_input
       end
